@@ -969,8 +969,45 @@ fn hex16(v: i128) -> String {
     format!("0x{}", hex::encode(v.to_be_bytes()))
 }
 
+/// hex digits are case-insensitive: a client may write them in upper or mixed case (the `0x` prefix
+/// and everything that is not a hex digit stay as they are)
+fn recase(t: &mut Tape, j: J, label: String) -> (J, String) {
+    let mode = t.weighted(&[4, 1, 1]);
+    if mode == 0 {
+        return (j, label);
+    }
+    fn up(s: &str, mode: usize) -> String {
+        let body_from = if s.starts_with("0x") { 2 } else { 0 };
+        s.char_indices()
+            .map(|(i, c)| if i >= body_from && c.is_ascii_hexdigit() && (mode == 1 || i % 3 == 0) { c.to_ascii_uppercase() } else { c })
+            .collect()
+    }
+    let j2 = match &j {
+        J::String(x) => J::String(up(x, mode)),
+        J::Object(o) if o.get("contentType").or(o.get("encoding")).and_then(|x| x.as_str()) == Some("hex") => {
+            let mut o = o.clone();
+            if let Some(J::String(c)) = o.get("content").cloned() {
+                o.insert("content".into(), J::String(up(&c, mode)));
+            }
+            J::Object(o)
+        }
+        _ => return (j, label),
+    };
+    (j2, format!("{label}-{}", if mode == 1 { "upper" } else { "mixed" }))
+}
+
 /// render an intended value through one admissible textual encoding
 fn render(t: &mut Tape, v: &Intended) -> (J, String) {
+    let (j, label) = render_plain(t, v);
+    let hexish = matches!(label.as_str(), "hex16" | "hex" | "0xhex" | "envelope-hex" | "txid#index");
+    if hexish {
+        recase(t, j, label)
+    } else {
+        (j, label)
+    }
+}
+
+fn render_plain(t: &mut Tape, v: &Intended) -> (J, String) {
     match v {
         Intended::Int(n) => match t.weighted(&[3, 3, 3]) {
             0 if *n >= i64::MIN as i128 && *n <= u64::MAX as i128 => {
